@@ -17,7 +17,9 @@ TTimeout ==
          s == e.shape
          bad == IF e.crash # "" THEN {"Crash"}
                 ELSE IF WellFormed(s) THEN
-                  (IF ~e.invoked \/ ~e.has \/ e.delta > 250 THEN {"DeadlineSet"} ELSE {})
+                  \* a duration under 200 ms may run out before the handler is entered: then nothing is observable
+                  (IF e.small /\ ~e.invoked THEN {}
+                   ELSE IF ~e.invoked \/ ~e.has \/ e.delta > 250 THEN {"DeadlineSet"} ELSE {})
                 ELSE IF Unspecified(s) THEN {}
                 ELSE (IF e.invoked THEN {"MalformedRefused"} ELSE {})
      IN /\ failed' = failed \cup {<<e.case, l, f>> : f \in bad}
@@ -30,7 +32,11 @@ TTimeout ==
 TCancel ==
   /\ l <= Len(Trace) /\ Trace[l].ev = "Cancel"
   /\ LET e == Trace[l]
+         \* On HTTP/1.1 net/http only notices a closed connection while somebody reads it: with an unfinished
+         \* request body and a handler that is not in Recv the disconnect is not observable (third-party contract).
+         observable == e.client = "grpc-cancel" \/ e.shape \in {"unary", "sstream"} \/ e.point = "blockedRecv"
          bad == IF e.crash # "" THEN {"Crash"}
+                ELSE IF ~observable THEN {}
                 ELSE (IF ~e.ctxdone THEN {"CancelReachesContext"} ELSE {})
                      \cup (IF e.point \in {"blockedRecv", "blockedSend"} /\ e.reached /\ ~(e.released /\ e.relerr) THEN {"CancelReleases"} ELSE {})
                      \cup (IF e.donebefore THEN {"SpuriousDone"} ELSE {})
